@@ -299,6 +299,6 @@ Descriptor == [tag |-> "l2", vmode |-> "lattice", div |-> 8, meshes |-> MeshPool
                models |-> models, lights |-> lights, kinds |-> <<>>, risk |-> Risk]
 \* evaluated once per distinct state = once per scene
 Emit == models = <<>> \/ PrintT(ToJson(Descriptor))
-\* -simulate: print complete walks only
-EmitLeaf == Len(models) < MaxModels \/ Len(lights) < MaxLights \/ PrintT(ToJson(Descriptor))
+\* -simulate: print complete walks only (no action enabled any more)
+EmitLeaf == ~((Len(models) = MaxModels \/ lights # <<>>) /\ Len(lights) = MaxLights /\ models # <<>>) \/ PrintT(ToJson(Descriptor))
 =============================================================================
